@@ -647,6 +647,34 @@ func (c *Ctx) e9Montgomery(cfg string) {
 		}
 		s.obl("E9", "E9/(*Point).bytesMontgomery/independent-of-X-T", "(*Point).bytesMontgomery", indep && s.projInvariant(arg, []string{"X1", "Y1", "Z1", "T1"}), "u depends on Y/Z only", "u depends on X or T, or on the projective representation")
 	}
+	// exceptional set: a rational-function identity holds only where every inverted expression is non-zero, and
+	// Invert(0) = 0 otherwise. The specification inverts Z (non-zero for valid points) and Z−Y (the identity's y = 1,
+	// handled below); any other inverted expression creates points where the result silently differs.
+	{
+		R := d.R
+		Z, Y := R.Var("Z1"), R.Var("Y1")
+		okInv := true
+		badInv := ""
+		for _, q := range d.NonZero {
+			allowed := false
+			base := R.Int(1)
+			for a := 0; a <= 3 && !allowed; a++ {
+				zy := R.Int(1)
+				for b := 0; b <= 3 && !allowed; b++ {
+					if q.Monic().Equal(base.Mul(zy).Monic()) {
+						allowed = true
+					}
+					zy = zy.Mul(Z.Sub(Y))
+				}
+				base = base.Mul(Z)
+			}
+			if !allowed {
+				okInv = false
+				badInv = q.String()
+			}
+		}
+		s.obl("E9", "E9/(*Point).bytesMontgomery/exceptional-set", "(*Point).bytesMontgomery", okInv, "the only inverted expressions are products of powers of Z and Z−Y: with Invert(0)=0 the result can differ from (1+y)/(1−y) only at y = 1, which is specified (zero)", "the computation inverts "+badInv+": where it vanishes (on valid points other than the identity) Invert(0) = 0 silently yields a value different from (1+y)/(1−y)")
+	}
 	// identity: y = 1 (Y = Z): Invert(0) = 0 gives 32 zero bytes
 	s2 := c.newE9(cfg, nil)
 	z := s2.d.Var("Z1")
